@@ -360,17 +360,24 @@ class RallyAsyncElasticsearch(AsyncElasticsearch, RequestContextHolder):
         else:
             target = path
 
-        meta, resp_body = await self.transport.perform_request(
-            method,
-            target,
-            headers=request_headers,
-            body=body,
-            request_timeout=self._request_timeout,
-            max_retries=self._max_retries,
-            retry_on_status=self._retry_on_status,
-            retry_on_timeout=self._retry_on_timeout,
-            client_meta=self._client_meta,
-        )
+        try:
+            meta, resp_body = await self.transport.perform_request(
+                method,
+                target,
+                headers=request_headers,
+                body=body,
+                request_timeout=self._request_timeout,
+                max_retries=self._max_retries,
+                retry_on_status=self._retry_on_status,
+                retry_on_timeout=self._retry_on_timeout,
+                client_meta=self._client_meta,
+            )
+        except BaseException:
+            # aiohttp emits no trace signal when a request fails while its response body is being received (e.g. the
+            # client-side timeout expires after the response headers have arrived): the request ends now, not when
+            # the headers arrived
+            self.on_request_end()
+            raise
 
         # HEAD with a 404 is returned as a normal response
         # since this is used as an 'exists' functionality.
